@@ -15,10 +15,12 @@ from .common import MachineryError
 FORMATS = ["glyf_colr_0", "glyf_colr_1", "picosvg"]
 
 
-def isometric_scenario(r, pattern, quarter_turns=False):
+def isometric_scenario(r, pattern, quarter_turns=False, view_box=None):
     """pattern: list of glyphs, each a list of class ids (ints).  Every occurrence of a class is an isometric copy of
     one concrete shape (same size), anywhere in the em.  quarter_turns: rotations by exact multiples of 90 degrees."""
-    vb = r.choice([(0, 0, 100, 100), (0, 0, 24, 24), (0, 0, 128, 128), (10, -5, 64, 64), (0, 0, 200, 100)])
+    # (large viewBoxes too: 1000 and 2048 units are what icon sets and font-derived artwork use)
+    vb = r.choice([(0, 0, 100, 100), (0, 0, 24, 24), (0, 0, 128, 128), (10, -5, 64, 64), (0, 0, 200, 100), (0, 0, 1000, 1000), (0, 0, 2048, 2048)])
+    vb = view_box or vb
     span = min(vb[2], vb[3])
     shapes = {}
     glyphs = []
@@ -239,7 +241,8 @@ def run(chk):
     for k in range(len(merges) if quick else 120):
         pat = merges[k] if k < len(merges) else [[rm.randrange(1, 4) for _ in range(rm.randrange(1, 3))] for _ in range(rm.randrange(4, 7))]
         r = common.rng("C19", "merge", k)
-        glyphs = isometric_scenario(r, pat, quarter_turns=(k % 2 == 1))
+        # (every other one: generic angles in a 2048-unit viewBox, where <use> coordinates are large)
+        glyphs = isometric_scenario(r, pat, quarter_turns=(k % 2 == 1), view_box=(0, 0, 2048, 2048) if k % 2 == 0 else None)
         for fmt in (["picosvg"] if quick else FORMATS):
             nontrivial = check_one(chk, glyphs, pat, fmt, 0.1, f"merge pattern {k}", {"seed": [chk.seed, "merge", k]})
             chk.case(key=("merge", json.dumps(pat), fmt), nontrivial=bool(nontrivial))
